@@ -35,7 +35,9 @@ type ResumeCase struct {
 	SuiteFirst bool      `json:"suite_first"` // session suite first or last in the fingerprint's list
 }
 
-type mapCache struct{ m map[string]*tls.ClientSessionState }
+type mapCache struct {
+	m map[string]*tls.ClientSessionState
+}
 
 func (c *mapCache) Get(k string) (*tls.ClientSessionState, bool) { s, ok := c.m[k]; return s, ok }
 func (c *mapCache) Put(k string, s *tls.ClientSessionState)      { c.m[k] = s }
